@@ -54,8 +54,10 @@ def value_map(fields, variant):
             out.append({0: 0, 1: 1, 2: 2})
         elif variant == 1:
             out.append({0: 0, 1: -1, 2: 32767 if two else 2147483647})
-        else:
+        elif variant == 2:
             out.append({0: 0, 1: -32768 if two else -2147483647 - 1, 2: 7})
+        else:        # large values with a tiny relative spread (coordinates in centimetres): equal only under a tolerance
+            out.append({0: 0, 1: 32766 if two else 671234500, 2: 32767 if two else 671234507})
     return out
 
 
@@ -330,14 +332,22 @@ def plan(run):
         g = small[k % len(small)]
         kind = GEOMS[g][0]
         modes = [m for m in MODES if not (kind == 'irr' and m == 'strip')]
-        cases.append({'geom': g, 'embed': int(rng.integers(len(EMBED))), 'vmap': k % 3, 'bg': ('zero', 'const', 'mix', 'ramp')[(k // 3) % 4],
+        cases.append({'geom': g, 'embed': int(rng.integers(len(EMBED))), 'vmap': k % 4, 'bg': ('zero', 'const', 'mix', 'ramp')[(k // 3) % 4],
                       'mat': mat, 'onemid': bool((k // 5) % 2), 'modes': modes, 'cls': list(key[0])})
     # trace counts around the 512-byte stride, many arrays (third array at the right offset)
     for k, g in enumerate(big if quick else big * 3):
         kind = GEOMS[g][0]
         key, mat = chosen[int(rng.integers(len(chosen)))]
-        cases.append({'geom': g, 'embed': k % len(EMBED), 'vmap': k % 3, 'bg': ('ramp', 'mix')[k % 2], 'mat': mat, 'onemid': False,
+        cases.append({'geom': g, 'embed': k % len(EMBED), 'vmap': k % 4, 'bg': ('ramp', 'mix')[k % 2], 'mat': mat, 'onemid': False,
                       'modes': [m for m in MODES if not (kind == 'irr' and m == 'strip')], 'cls': list(key[0])})
+    # every embedding with a word whose values differ by a tiny relative amount only (equal under a float tolerance, not as integers)
+    for e in range(len(EMBED)):
+        for j, pat in enumerate(([1, 2, 1], [1, 1, 2], [2, 1, 1], [2, 2, 1])):
+            mat = [[1, 1, 1], [0, 0, 0], [2, 2, 2]]
+            mat[(e + j) % 3] = pat
+            g = small[(e + j) % len(small)]
+            cases.append({'geom': g, 'embed': e, 'vmap': 3, 'bg': ('const', 'zero')[j % 2], 'mat': mat, 'onemid': bool(j % 2),
+                          'modes': [m for m in MODES if not (GEOMS[g][0] == 'irr' and m == 'strip')], 'cls': ['v', 'z', 'c']})
     ncases = []
     shapes = [(2, 2), (8, 16), (3, 43), (2, 3), (5, 26)]
     keys = KEYS()
